@@ -16,6 +16,8 @@ pub const BAND_EPS: f64 = 8.0;
 /// bound `distance(q, centre) - radius` is a difference of two rounded quantities each <= 3M with a
 /// relative error of about (dim + 4) eps, so a point may be pruned although its true distance is
 /// smaller than the threshold by up to ~6 (dim + 4) eps M.
+/// plus a second-order term `(n + 2) eps X sqrt(dim)` added to M for the rounding of a leaf centre
+/// (mean of up to n coordinates of magnitude <= X), which matters only when M itself is a few ulps of X.
 pub const GEO_EPS: f64 = 8.0;
 
 const KINDS: [(&str, CommonNearestNeighbour); 3] = [
@@ -76,6 +78,7 @@ fn classify_case(c: &Case, obs: &mut Obs) {
         PointClass::Uniform => "pts_uniform",
         PointClass::Collinear => "pts_collinear",
         PointClass::Rough => "pts_rough",
+        PointClass::AdjacentFloats => "pts_adjacent_floats",
         PointClass::Bytes => "pts_bytes",
     });
     obs.class(match c.metric {
@@ -110,6 +113,8 @@ struct Brute {
     order: Vec<usize>,
     /// largest d
     m: f64,
+    /// distance query -> point i by the harness' own formula, evaluated in f64 on the converted coordinates
+    dref: Vec<f64>,
 }
 
 type Answer<'a, F> = Vec<(ArrayView1<'a, F>, usize)>;
@@ -168,6 +173,31 @@ fn run<F: Float, D: Distance<F>>(c: &Case, dist: D, powf_metric: bool, obs: &mut
     let malformed_build = dim == 0 || c.leaf == 0;
     let mut indices = Vec::with_capacity(3);
     for (kind, algo) in KINDS.iter() {
+        if *kind == "kdtree" && !malformed_build && !crate::kdsim::in_probe_child() && crate::kdsim::build_recurses(&batch, c.leaf) {
+            // replaying the k-d tree's insertion sequence reaches a split that leaves one side empty (adjacent
+            // floats whose midpoint rounds onto the minimum): the real build would recurse until the stack
+            // overflows and take this process with it, so it is observed in a child process instead
+            obs.class("kd_degenerate_split_predicted");
+            match crate::kdsim::probe_build(c, "indices") {
+                crate::kdsim::Probe::Unavailable => {
+                    obs.class("kd_skipped_no_probe");
+                    continue;
+                }
+                crate::kdsim::Probe::Died(st) => {
+                    obs.fail(
+                        "crash:build:kdtree:adjacent-float-midpoint",
+                        format!(
+                            "kdtree: building the index over {n} x {dim} points with leaf size {} killed the (child) process: {st}; \
+                             a bucket whose extreme coordinates are adjacent floats is split at a midpoint that rounds onto the minimum, \
+                             so the split recurses without bound (stack overflow)",
+                            c.leaf
+                        ),
+                    );
+                    continue;
+                }
+                crate::kdsim::Probe::Survived => obs.class("kd_degenerate_split_survived"),
+            }
+        }
         let r = obs.call(&format!("build:{kind}"), || {
             algo.from_batch_with_leaf_size(&batch, c.leaf, dist.clone())
         });
@@ -201,6 +231,8 @@ fn run<F: Float, D: Distance<F>>(c: &Case, dist: D, powf_metric: bool, obs: &mut
     }
 
     // ---------------------------------------------------------------- queries
+    let xmax = rows64_max(&batch, c);
+    let rows64: Vec<Vec<f64>> = batch.rows().into_iter().map(|row| row.iter().map(|x| f64_of(*x)).collect()).collect();
     for (qi, q) in c.queries.iter().enumerate() {
         let qp: Array1<F> = Array1::from_iter(q.point.iter().map(|x| F::cast(*x)));
         obs.class(match q.class {
@@ -265,15 +297,32 @@ fn run<F: Float, D: Distance<F>>(c: &Case, dist: D, powf_metric: bool, obs: &mut
             x.partial_cmp(&y).unwrap_or(std::cmp::Ordering::Equal)
         });
         let m = d.iter().fold(0.0f64, |a, b| a.max(*b));
-        let br = Brute { rd, d, order, m };
-        let geo_tol = GEO_EPS * (dim as f64 + 8.0) * eps * br.m;
+        let ref_metric = match c.metric {
+            Metric::Lp(p) if c.single => Metric::Lp((p as f32) as f64),
+            mm => mm,
+        };
+        let qv: Vec<f64> = qp.iter().map(|x| f64_of(*x)).collect();
+        let dref: Vec<f64> = rows64.iter().map(|rv| reference(ref_metric, &qv, rv).0).collect();
+        let br = Brute { rd, d, order, m, dref };
+        // second-order term: a leaf centre (mean of up to n rounded coordinates) may lie outside the hull by ~n eps X
+        let geo_tol = GEO_EPS * (dim as f64 + 8.0) * eps * (br.m + (n as f64 + 2.0) * eps * xmax * (dim as f64).sqrt());
 
         knn_query(c, qi, q, &qp, &batch, &indices, &br, eps, geo_tol, powf_metric, obs);
         range_query(c, qi, q, &qp, &batch, &indices, &br, &dist, eps, geo_tol, powf_metric, obs);
     }
 }
 
+/// largest coordinate magnitude among stored points and queries
+fn rows64_max<F: Float>(batch: &Array2<F>, c: &Case) -> f64 {
+    let a = batch.iter().fold(0.0f64, |m, x| m.max(f64_of(*x).abs()));
+    c.queries.iter().flat_map(|q| q.point.iter()).fold(a, |m, x| m.max(x.abs()))
+}
+
 fn kind_tol(kind: &str, powf_metric: bool, geo_tol: f64) -> f64 {
+    // diagnostic switch (never set by the registered commands): judge without the bound allowance
+    if std::env::var_os("C07_NO_GEO_TOL").is_some() {
+        return 0.0;
+    }
     if kind == "balltree" || (kind == "kdtree" && powf_metric) {
         geo_tol
     } else {
@@ -351,7 +400,8 @@ fn knn_query<'a, F: Float>(
             }
             inexact = true;
             // a subset can only be farther than the truth; "equal" within the stated tolerance
-            let ok = *grd > trd && *gd <= td + BAND_EPS * eps * td + tol_kind;
+            let band = if std::env::var_os("C07_NO_GEO_TOL").is_some() { 0.0 } else { BAND_EPS * eps * td };
+            let ok = *grd > trd && *gd <= td + band + tol_kind;
             if !ok {
                 obs.fail(
                     format!("knn:wrong-distances:{kind}"),
@@ -456,6 +506,26 @@ fn range_query<'a, F: Float, D: Distance<F>>(
             }
         })
         .collect();
+    // ---- independent of the crate's conversions: the reduced scale must order every point against the
+    // reduced radius the way the harness' own distance formula orders it against the radius
+    let slack = (FORMULA_EPS + 4.0 * batch.ncols() as f64) * eps;
+    for i in 0..n {
+        let (Some(dr), Some(r)) = (br.dref.get(i).copied(), br.rd.get(i).copied()) else { continue };
+        if range_f < 1e-12 && dr < 1e-12 {
+            continue; // squares / p-th powers of such values may underflow in f32
+        }
+        let inside = dr < range_f * (1.0 - slack);
+        let outside = dr > range_f * (1.0 + slack) && dr >= 1e-12;
+        if (inside && r >= rp) || (outside && r <= rp) {
+            obs.fail(
+                "range:reduced-scale-inconsistent",
+                format!(
+                    "query {qi}: row {i} is at distance {dr} (own formula), radius {range_f}; but rdistance = {r} and dist_to_rdist(radius) = {rp} order them the other way"
+                ),
+            );
+            break;
+        }
+    }
     let on_radius: Vec<usize> = (0..n).filter(|i| status.get(*i) == Some(&2)).collect();
     obs.class_if(!on_radius.is_empty(), "point_exactly_on_radius");
     obs.class_if(status.iter().any(|s| *s == 1), "point_in_rounding_band");
